@@ -47,3 +47,43 @@ Definition version_wf (v : version) : bool :=
   forallb check_disjoint (tl v)
   && forallb (forallb (fun f => ikey_leb (fm_small f) (fm_large f))) v
   && nodup_nums (map fm_num (concat v)).
+
+(** ** The invariant of the LSM state machine as a decidable predicate (evaluated on every
+    structural dump of the implementation, and proved of every reachable model state) *)
+From RainVerif.model Require Import Block Table TableSpec Lsm.
+
+(** the sources of a state in recency order: memtable, immutable memtable, level-0 files newest
+    first, then each deeper level as one sorted run *)
+Definition level_run (s : lsm) (fs : list fmeta) : list entry :=
+  flat_map (fun f => file_entries s (fm_num f)) fs.
+
+Definition sources (s : lsm) : list (list entry) :=
+  l_mem s
+  :: match l_imm s with Some i => [i] | None => [] end
+  ++ map (fun f => file_entries s (fm_num f)) (sort_by_num_desc (level_files (l_ver s) O))
+  ++ map (level_run s) (tl (l_ver s)).
+
+(** every entry of [newer] for a user key is younger than every entry of [older] for it *)
+Definition newer_than (newer older : list entry) : bool :=
+  forallb (fun a =>
+    forallb (fun b => negb (bytes_eqb (ik_user (fst a)) (ik_user (fst b)))
+                      || (ik_seq (fst b) <? ik_seq (fst a))) older) newer.
+
+Fixpoint recency_ok (srcs : list (list entry)) : bool :=
+  match srcs with
+  | [] => true
+  | x :: r => forallb (newer_than x) r && recency_ok r
+  end.
+
+Definition entry_ok (seq : N) (e : entry) : bool :=
+  (ik_seq (fst e) <=? seq) && (1 <=? ik_seq (fst e)) && (ik_op (fst e) <=? 1).
+
+Definition lsm_wf_b (s : lsm) : bool :=
+  negb (l_panic s)
+  && Nat.eqb (length (l_ver s)) (N.to_nat MAX_NUM_LEVELS)
+  && shape_ok (l_ver s) (file_entries s)
+  && forallb sorted_entries (sources s)
+  && recency_ok (sources s)
+  && forallb (forallb (entry_ok (l_seq s))) (sources s)
+  && forallb (fun f => fm_num f <=? l_next s) (concat (l_ver s))
+  && forallb (fun q => q <=? l_seq s) (l_snaps s).
